@@ -135,6 +135,7 @@ def hostile_requests(rng, model, full: bool) -> typing.List[typing.Tuple[str, by
                        (b"h / 3", b"abcdef"), (b"h  0", b""), (b"h / -1", b""), (b"h / 00", b""),
                        (b"h /% 0", b""), (b"h /umn/one.txt 3", b"\xff\xfe\x00"), (b"h umn 0", b""),
                        (b"h /umn 99999999999999999999", b""), (b"h /umn 1", b"\n"),
+                       (b"h /umn " + b"9" * 4400, b""), (b"h /umn " + b"0" * 5000 + b"3", b"abc"), (b"h / " + b"1" * 100000, b""),
                        # separators that are not exactly one blank: detection and parsing must agree
                        (b"h  /umn 0", b""), (b"h\t/umn 0", b""), (b"h /umn  0", b""), (b"h /umn\t0", b""), (b" h /umn 0", b""),
                        (b"h /umn 0 ", b""), (b"h  /umn/one.txt  0", b""), (b"h\t/umn/one.txt\t0", b""), (b"h \t /umn 0", b""),
